@@ -49,7 +49,7 @@ func main() {
 
 	fixed, note, err := probeVariant()
 	if err != nil && !strings.Contains(err.Error(), "PruneUpto") {
-		res.Note("variant probe: %v", err) // the generator or the plain store failed: nothing of C16 can run
+		res.Fatalf("variant probe: %v", err) // the generator or the plain store failed: nothing of C16 can run
 		lib.Finish(f, res)
 	}
 	if err != nil {
@@ -65,7 +65,7 @@ func main() {
 
 	mig, mnote, err := probeMigration()
 	if err != nil {
-		res.Note("migration probe: %v", err)
+		res.Fatalf("migration probe: %v", err)
 		lib.Finish(f, res)
 	}
 	res.Note("history-pruner migration variant of the code under test: %s", mnote)
@@ -100,35 +100,41 @@ func main() {
 	if workers > len(jobs) {
 		workers = len(jobs)
 	}
+	// every worker gets its two model instances BEFORE any work is handed out: a driver that does not start
+	// (or does not answer the first line) ends the run as a harness failure, no scenario is skipped silently
+	var envs []*env
+	for i := 0; i < workers; i++ {
+		var ds [2]*lib.Driver
+		for k := range ds {
+			d, err := lib.StartDriver(f.Driver)
+			if err == nil {
+				var o string
+				if o, err = d.Ask("info"); err == nil && len(strings.Fields(o)) != 7 {
+					err = fmt.Errorf("unexpected answer to info: %q", o)
+				}
+			}
+			if err != nil {
+				res.Fatalf("model driver %q does not start / answer: %v", f.Driver, err)
+				lib.Finish(f, res)
+			}
+			ds[k] = d
+		}
+		envs = append(envs, &env{res: res, drv: ds[0], fdrv: ds[1], fixed: fixed, mig: mig, f: f})
+	}
 	ch := make(chan job)
 	var wg sync.WaitGroup
 	for i := 0; i < workers; i++ {
 		wg.Add(1)
+		e := envs[i]
 		go func() {
 			defer wg.Done()
-			drv, err := lib.StartDriver(f.Driver)
-			if err != nil {
-				res.Note("driver: %v", err)
-				for range ch {
-				}
-				return
-			}
-			defer drv.Close()
-			fdrv, err := lib.StartDriver(f.Driver)
-			if err != nil {
-				res.Note("driver: %v", err)
-				for range ch {
-				}
-				return
-			}
-			defer fdrv.Close()
-			e := &env{res: res, drv: drv, fdrv: fdrv, fixed: fixed, mig: mig, f: f}
+			defer e.drv.Close()
+			defer e.fdrv.Close()
 			for j := range ch {
 				perr, panicked, stack := lib.Try(func() error { j.run(e); return nil })
 				if panicked {
 					// a scenario that did not run to its end proves nothing: never let that pass as green
-					res.Note("harness panic in %s: %v\n%s", j.name, perr, stack)
-					res.Mismatch(lib.Mismatch{Sig: "harness-panic", Input: j.name, Model: "scenario runs to its end", Impl: perr.Error()})
+					res.Fatalf("harness panic in %s: %v\n%s", j.name, perr, stack)
 				}
 			}
 		}()
@@ -150,6 +156,10 @@ func main() {
 	close(ch)
 	wg.Wait()
 	pprof.StopCPUProfile()
+	// clock-dependent cases that had to be dropped: a few under load are fine, most of them is not a check
+	if sk, tot := clockSkipped.Load(), clockCases.Load(); sk*4 > tot && sk > 2 {
+		res.Fatalf("%d of %d min-age cases were dropped because the wall clock crossed a block timestamp", sk, tot)
+	}
 	res.HitN("event-queries-with-events", int(nonEmptyEventAnswers.Load()))
 	res.HitN("filtered-event-queries-with-events", int(nonEmptyFilteredAnswers.Load()))
 	lib.Finish(f, res)
@@ -159,12 +169,12 @@ func main() {
 func replayJobs(f lib.Flags, res *lib.Result) []job {
 	raw, err := os.ReadFile(f.Replay)
 	if err != nil {
-		res.Note("replay: %v", err)
+		res.Fatalf("replay: %v", err)
 		return nil
 	}
 	var doc map[string]any
 	if err := json.Unmarshal(raw, &doc); err != nil {
-		res.Note("replay: %v", err)
+		res.Fatalf("replay: %v", err)
 		return nil
 	}
 	// the check driver wraps the harness' replay object; accept both shapes
@@ -182,7 +192,7 @@ func replayJobs(f lib.Flags, res *lib.Result) []job {
 		}
 	}
 	if len(out) == 0 {
-		res.Note("replay: no scenario named %q (seed-dependent scenarios need the same --seed)", name)
+		res.Fatalf("replay: no scenario named %q (seed-dependent scenarios need the same --seed)", name)
 	}
 	return out
 }
